@@ -12,6 +12,7 @@ A_  == TextTok(<<97>>)
 ZZ_ == TextTok(<<122, 122>>)
 S4_ == SidTok(4)
 
+Long130 == <<>> \o [i \in 1..130 |-> 120]     \* (\o forces an explicit tuple: states are written to disk)
 IntV(neg, mag) == Val("int", <<>>, [neg |-> neg, mag |-> mag])
 
 Alphabet == <<
@@ -21,7 +22,7 @@ Alphabet == <<
   [op |-> "WriteSymbol", m |-> "WriteSymbol", tok |-> A_],                       \*  4
   [op |-> "WriteSymbol", m |-> "WriteSymbol", tok |-> BadTok],                   \*  5
   [op |-> "Scalar", m |-> "WriteNull", v |-> NullVal("null", <<>>)],             \*  6
-  [op |-> "Scalar", m |-> "WriteString", v |-> Val("string", <<>>, <<115>>)],    \*  7
+  [op |-> "Scalar", m |-> "WriteString", v |-> Val("string", <<>>, Long130)],    \*  7  (pushes container bodies past 127 bytes)
   [op |-> "Begin", m |-> "BeginList", kind |-> "list"],                          \*  8
   [op |-> "End", m |-> "EndList", kind |-> "list"],                              \*  9
   [op |-> "Begin", m |-> "BeginStruct", kind |-> "struct"],                      \* 10
@@ -51,7 +52,9 @@ Alphabet == <<
         [y |-> 2000, mo |-> 2, d |-> 29, h |-> 23, mi |-> 59, s |-> 58, frac |-> <<0, 5, 0>>,
          off |-> -90, known |-> TRUE, prec |-> 6])],                             \* 32
   [op |-> "Scalar", m |-> "WriteClob", v |-> Val("clob", <<>>, <<0, 34, 125, 255>>)],   \* 33
-  [op |-> "Scalar", m |-> "WriteBlob", v |-> Val("blob", <<>>, <<1, 2, 3, 4>>)]         \* 34
+  [op |-> "Scalar", m |-> "WriteBlob", v |-> Val("blob", <<>>, <<1, 2, 3, 4>>)],        \* 34
+  [op |-> "Scalar", m |-> "WriteString", v |-> Val("string", <<>>, <<115>>)],           \* 35
+  [op |-> "Scalar", m |-> "WriteClob", v |-> Val("clob", <<>>, <<>> \o [i \in 1..200 |-> 65 + (i % 26)])]  \* 36
 >>
 
 Reduced == 1..14
